@@ -16,7 +16,9 @@ C18Cases ==
 C06Cases == [1..13 -> {"+", "-"}]
 
 \* C07: classes of base points (lightest SUSY mass >= 300 GeV)
-C07Cases == {"generic", "hightb", "compressed"}
+\* "degenerate": a random subset (>= 2) of |mu|, |M1|, |M2|, m_L(2,2), m_E(2,2) share one value (equal arguments of
+\* Iabc, Fa, Fb in the tan(beta) resummation and the one-loop approximations; masses nearly equal through D-terms)
+C07Cases == {"generic", "hightb", "compressed", "degenerate"}
 
 \* C15: the full cross product of GM2CalcConfig options (480 vectors)
 C15Opts == [fmt : 0..4, loop : 0..2, tb : BOOLEAN, force : BOOLEAN, verbose : BOOLEAN, unc : BOOLEAN, running : BOOLEAN]
